@@ -645,7 +645,15 @@ def run_transitions_1d(case):
 def run_transitions_rows(case):
     x = build_table(case)
     info, refs = table_info(case)
+    before = np.array(x.flatten() if isinstance(x, ra.RaggedArray) else x, copy=True)
     tt = disorder.transitions(x)
+    # the bookkeeping reads the state sequences; they are the caller's (a second look at them gives the same answer)
+    after = np.asarray(x.flatten() if isinstance(x, ra.RaggedArray) else x)
+    require(after.shape == before.shape and np.array_equal(after, before), "transitions() changed the caller's state table",
+            before=before.tolist(), after=after.tolist())
+    tt2 = disorder.transitions(x)
+    require(len(tt2) == len(tt) and all(as_int_list(p) == as_int_list(q) for p, q in zip(tt, tt2)),
+            "a second transitions() call on the same table gives another answer")
     require(len(tt) == len(refs), "result does not have one row per trajectory", rows=len(refs), got=len(tt),
             states=case["rows"])
     for i, want in enumerate(refs):
@@ -754,7 +762,7 @@ def _test_traj():
 @st.composite
 def traj_case(draw):
     which = draw(st.sampled_from(["phi", "psi", "chi", "chi", "all"]))
-    return {"which": which, "buffer": draw(st.sampled_from([0, 1, 5, 7.5, 15, 15, 30, 45, 59, 100])),
+    return {"which": which, "buffer": draw(st.sampled_from([0, 1, 5, 7.5, 15, 15, 30, 45, 59, 90, 95, 99, 100])),
             "start": draw(st.integers(0, 4000)), "stride": draw(st.sampled_from([1, 1, 3, 17, 50])),
             "n": draw(st.integers(2, 40)), "kw": draw(st.booleans())}
 
@@ -802,6 +810,56 @@ def run_traj(case):
                                               "buffer_matters=%s" % (changed > 0)])
 
 
+# --------------------------------------------------------------------------
+# long series (tens of thousands of frames, seeded): the machine has no memory but its current state
+
+@st.composite
+def long_series_case(draw):
+    bounds = draw(st.sampled_from(LIB_SETS))
+    n = len(bounds) - 1
+    return {"bounds": bounds, "buffer": draw(st.sampled_from([0, 5, 15, 15, 30, 45.5, 59])) if n == 3 else
+            draw(st.sampled_from([0, 15, 15, 45, 90, 95, 99, 120, 170])),
+            "n": draw(st.sampled_from([16383, 16384, 16385, 20000, 32768, 40000, 70000])),
+            "seed": draw(st.integers(0, 2 ** 31 - 1)), "stick": draw(st.sampled_from([0.0, 0.9, 0.99])),
+            "f32": draw(st.booleans())}
+
+
+def run_long_series(case):
+    rng = np.random.RandomState(case["seed"])            # seed drawn by Hypothesis
+    n, bounds, buf = case["n"], case["bounds"], float(case["buffer"])
+    # a random walk on the circle that lingers near the basin boundaries (where the buffer matters)
+    steps = rng.normal(0, 25, size=n) * (rng.rand(n) >= case["stick"])
+    centre = rng.choice(bounds[:-1], size=n)
+    ang = (np.cumsum(steps) * 0.2 + centre + rng.uniform(-40, 40, size=n)) % 360.0
+    ang = np.minimum(ang, 359.5)
+    if case["f32"]:
+        ang = ang.astype(np.float32)
+    vals = [float(a) for a in ang]
+    gates = gate_values(bounds, buf)
+    if min_gate_dist_all(vals, gates) < 1e-4:
+        raise Skip("an angle sits on a gate")
+    got = rotamer._rotamers(ang, bounds, buffer_width=case["buffer"])
+    ref = ref_machine(vals, bounds, buf)
+    got_l = [int(x) for x in got]
+    if got_l != ref:
+        i = next(k for k in range(n) if got_l[k] != ref[k])
+        raise Violation("state sequence of a long series differs from the reference machine | first_diff=%d of %d, angle=%r, "
+                        "prev_state=%s, got=%d, want=%d, bounds=%s, buffer=%s" % (i, n, vals[i], ref[i - 1] if i else None,
+                                                                                    got_l[i], ref[i], bounds, buf))
+    plain = ref_machine(vals, bounds, 0.0)
+    return Info(ref != plain and n > 16384, ["long_n=%d" % n, "long_bounds=%s" % (bounds,), "long_buffer=%s" % case["buffer"]],
+                key=[n, bounds, case["buffer"], case["seed"], case["stick"], case["f32"]])
+
+
+def min_gate_dist_all(vals, gates):
+    if not gates:
+        return 1.0
+    v = np.asarray(vals, dtype=float)[:, None]
+    g = np.asarray(sorted(gates), dtype=float)[None, :]
+    d = np.abs(v - g) % 360.0
+    return float(np.minimum(d, 360.0 - d).min())
+
+
 MATCHERS = {"crossed_gates_wraparound_basin": m_crossed_gates, "no_transition_anywhere": m_no_transition_anywhere}
 
 
@@ -819,6 +877,8 @@ CLAUSES = [
     Clause("transitions_2d", table_case("2d"), run_transitions_rows, quick=500, thorough=10000),
     Clause("transitions_ragged", table_case("ragged"), run_transitions_rows, quick=400, thorough=8000),
     Clause("transition_stats_times", stats_case(), run_transition_stats, quick=300, thorough=5000),
+    Clause("reference_machine_very_long", long_series_case(), run_long_series, quick=24, thorough=400,
+           doc="16383..70000 frames (seeded walk lingering at the basin boundaries) vs the reference machine"),
     Clause("trajectory_entry_points", traj_case(), run_traj, quick=120, thorough=2000,
            doc="phi/psi/chi/all_rotamers on slices of the repository's test trajectory vs the reference machine per dihedral"),
     Clause("rotamers_then_transitions", history_case(), run_pipeline, quick=300, thorough=5000),
